@@ -134,6 +134,14 @@ Theorem C13_reader_chunks_eq_read : forall c r cs, 0 < c -> tr_wf c r -> NoDup c
 Proof. exact tr_reader_chunks_eq_read. Qed.
 Print Assumptions C13_reader_chunks_eq_read.
 
+(* columns=None on a reader tree without computed columns: all columns, in table order *)
+Theorem C13_reader_none : forall c r, 0 < c -> tr_wf c r -> tr_plain r ->
+  exists chs, tr_chunks r c None = Ok chs
+    /\ tr_read r None = Ok (ch_whole (tr_names r) (tr_drows r))
+    /\ tr_chunked c (tr_names r) (tr_drows r) chs.
+Proof. exact tr_reader_none. Qed.
+Print Assumptions C13_reader_none.
+
 (* cell-level reading of tr_select: requested columns, requested order, unchanged cells *)
 Theorem C13_reader_cells : forall c r cs, tr_wf c r -> incl cs (tr_names r) ->
   forall i row, nth_error (tr_drows r) i = Some row ->
@@ -256,6 +264,25 @@ Example C13_ex_runs :
   /\ tr_read ex_reader (Some ex_cols)
      = Ok {| ch_index := [0;1;2]; ch_names := [5;9;0]; ch_rows := [[12;7;10];[22;7;20];[32;7;30]]%Z |}.
 Proof. split; vm_compute; reflexivity. Qed.
+
+Example C13_ex_none :
+  let r := TrJoined [TrCsv ex_ta; TrMapped (TrParquet ex_tb [2;1]%nat [1;1;1]%nat) [(2,5)]%nat] in
+  tr_wf 2 r /\ tr_plain r
+  /\ tr_read r None = Ok (ch_whole [0;1;5;3] [[10;11;12;13];[20;21;22;23];[30;31;32;33]]%Z).
+Proof.
+  destruct C13_ex_table_wf as [Ha Hb]. cbv zeta. split; [|split].
+  - apply wf_joined.
+    + discriminate.
+    + apply Forall_cons; [apply wf_csv; exact Ha|]. apply Forall_cons; [|apply Forall_nil].
+      apply wf_mapped.
+      * apply wf_parquet; [exact Hb|]. simpl. repeat split; first [lia | intros; congruence].
+      * simpl. repeat constructor; simpl; intuition discriminate.
+    + intros r [<-|[<-|[]]]; reflexivity.
+    + simpl. repeat constructor; simpl; intuition discriminate.
+  - apply pl_joined. apply Forall_cons; [apply pl_csv|]. apply Forall_cons; [|apply Forall_nil].
+    apply pl_mapped. apply pl_parquet.
+  - vm_compute. reflexivity.
+Qed.
 
 Example C13_ex_buffered :
   bw_run 2 BwDicts [[1;2;3];[];[4];[5;6]]
